@@ -163,6 +163,32 @@ def judge_entry(case):
                        sample={"J": J, "other_model_J": Jo})
 
 
+def judge_pure(case):
+    """pure feeds (fraction exactly 0 or 1, either basis): the ideal curve - one point, or the pure point among others - reports the
+    standalone solver's fluxes in every permeate mode; the permeate-composition helper agrees where it returns."""
+    mix = U.get_mixture(case["mixture"])
+    t, x, model, prec = case["T"], case["x"], case["model"], 5e-5
+    mode = tuple(case["mode"]) if case["mode"] != "vac" else "vac"
+    kw = U.permeate_kwargs(mode, t)
+    mem = U.make_membrane(mix, case["P"][0], case["P"][1], t_ref=t, ea1=25000.0, ea2=60000.0)
+    pv = mkpv(mem, mix)
+    st, J = core.call(pv.calculate_partial_fluxes, feed_temperature=t, composition=U.Composition(p=x, type=case["basis"]), precision=prec, calculation_type=model, **kw)
+    if st != "ok":
+        return core.result("solver-raised", nontrivial=False)
+    J = (float(J[0]), float(J[1]))
+    v = []
+    for comps_, idx in (([U.Composition(p=x, type=case["basis"])], 0), ([U.Composition(p=0.4, type=case["basis"]), U.Composition(p=x, type=case["basis"])], 1)):
+        sc, c = core.call(pv.ideal_diffusion_curve, feed_temperature=t, compositions=comps_, precision=prec, calculation_type=model, **kw)
+        if sc != "ok":
+            continue  # the curve may reject what it cannot invert (no driving force for the absent component)
+        Jc = (float(c.partial_fluxes[idx][0]), float(c.partial_fluxes[idx][1]))
+        if not (core.bit_eq(Jc[0], J[0]) and core.bit_eq(Jc[1], J[1])):
+            v.append(core.viol("C08/entry_points_disagree/ideal_curve_pure_feed", "pure feed x=%r (%s), mode %r: the solver reports fluxes %r, point %d of a %d-point ideal curve %r" % (
+                x, case["basis"], mode, J, idx, len(comps_), Jc)))
+            break
+    return core.result("judged", digest=core.digest_of([core.fhex(J[0]), core.fhex(J[1])]), viol=v)
+
+
 def judge_trace(case):
     setup = traces.Setup(case)
     st, pm = setup.run()
@@ -246,7 +272,12 @@ def trace_spaces(tier, seed):
     def ok(c):
         return U.has_model(U.get_mixture(c["mixture"]), c["model"]) and not (c["kind"] in traces.ISO and c["prog"] != "none")
 
-    return [core.Space("ideal_traces", ideal, ok), core.Space("nonideal_traces", non, ok)]
+    # membranes with several experiments per component, energies left unstated (regressed), in every unit; the programme carries the
+    # feed across the mid-point between two experiment temperatures, so different steps have different nearest experiments
+    multi = dict(ideal, kind=["ideal_noniso", "ideal_iso"], mixture=["H2O_EtOH", "S2"], model=["NRTL"], prog=["none", "poly"], area=[0.05], amount=[50.0], steps=[5],
+                 ea=[(("fit", 25000.0), ("fit", 60000.0)), (25000.0, ("fit", 60000.0))], extra_temps_offsets=[(14.0,), (-9.0, 16.0)], T=[313.15, 335.0],
+                 tref_offset=[0.0, -3.0], exp_units=[U.Units.kg_m2_h_kPa, "SI", "GPU"], basis=["weight"], x0=core.lat([0.1, 0.45], seed))
+    return [core.Space("ideal_traces", ideal, ok), core.Space("ideal_traces_regressed_energies", multi, ok), core.Space("nonideal_traces", non, ok)]
 
 
 def main(tier, seed):
@@ -262,6 +293,10 @@ def main(tier, seed):
     U.install_fit_memo()
     m = core.run_space(rep, entry_space(tier, seed), judge_entry)
     rep.note("model_sensitive_cases", m["extra"].get("model_sensitive", 0))
+    pure = {"mixture": ["H2O_EtOH", "S2"] if tier == "quick" else ["H2O_EtOH", "MeOH_DMC", "S2", "S4", "S5"], "model": ["NRTL", "UNIQUAC"],
+            "mode": ["vac", ("T", -60.0), ("p", 0.0), ("p", 0.5), ("p", 3.0)], "P": [(1e-2, 1e-4), (1e-4, 1e-2)], "x": [0.0, 1.0], "basis": ["weight", "molar"],
+            "T": core.lat([313.15, 353.15], seed)}
+    core.run_space(rep, core.Space("pure_feeds", pure, lambda c: U.has_model(U.get_mixture(c["mixture"]), c["model"])), judge_pure)
     for sp in trace_spaces(tier, seed):
         spaces.prewarm(sp)
         core.run_space(rep, sp, judge_trace)
@@ -270,7 +305,7 @@ def main(tier, seed):
 
 def replay(body):
     U.install_fit_memo()
-    fn = judge_entry if body["space"] == "entry_points" else judge_trace
+    fn = judge_entry if body["space"] == "entry_points" else (judge_pure if body["space"] == "pure_feeds" else judge_trace)
     r = fn(body["case"])
     for v in r["viol"]:
         print("violation key=%s: %s" % (v["key"], v["msg"]))
